@@ -38,7 +38,17 @@ def main():
             ck = (bool(step.get("compress")), step.get("store", ""), int(step.get("verbose", 0)))
             if ck not in mems:
                 # (messages of a verbose Memory go to stdout: the reader of this program's output only takes the JSON lines)
-                mems[ck] = joblib.Memory("relcache" if ck[1].startswith("_REL@") else prog["root"] + step.get("store", ""), verbose=ck[2], compress=ck[0])
+                if ck[1] == "_USER":
+                    # a store backend registered by the user (public register_store_backend): the local store under another root
+                    from joblib._store_backends import FileSystemStoreBackend
+
+                    class PrefixedStore(FileSystemStoreBackend):
+                        def configure(self, location, verbose=1, backend_options=None):
+                            super().configure(os.path.join(location, "blobs"), verbose=verbose, backend_options=backend_options)
+                    joblib.register_store_backend("verifstore", PrefixedStore)
+                    mems[ck] = joblib.Memory(prog["root"] + "_USER", backend="verifstore", verbose=ck[2], compress=ck[0])
+                else:
+                    mems[ck] = joblib.Memory("relcache" if ck[1].startswith("_REL@") else prog["root"] + step.get("store", ""), verbose=ck[2], compress=ck[0])
             kind = step.get("kind", "function")
             if kind == "method":
                 target = getattr(sigmod, "INST_" + step["f"]).m
